@@ -4,9 +4,19 @@ Generated domain: histories over {press k, release k, write KOL/KOH, scan tick, 
 (+ Rust: timer-driven tick through TimerContext::tick_timers_with_keyboard, write_fifo_to_memory, RETI-style
 acknowledge, keyboard-interrupt enable) for 2..6 keys biased to share rows/columns, both column polarities,
 press/release thresholds 1..6, repeat delay/interval in {0,1,2,6,24}; composite sub-sequences for chatter,
-strobe change mid-debounce, long holds (repeat) and bursts (queue overflow).  Each abstract history is run on
-three models: pce500.keyboard_matrix.KeyboardMatrix, pce500.keyboard_handler.PCE500KeyboardHandler and the Rust
-sc62015_core::keyboard::KeyboardMatrix (+ TimerContext).
+strobe change mid-debounce, long holds (repeat), bursts (queue overflow) and parked strobes (no column selected
+while a release debounce is pending, quiet stretch, column selected again).  Each abstract history is run on five
+models:
+
+  py-matrix   pce500.keyboard_matrix.KeyboardMatrix
+  py-handler  pce500.keyboard_handler.PCE500KeyboardHandler (ticks observed at the handler's own scan_tick)
+  py-cpu      pce500.PCE500Emulator: strobe writes / KIL reads / ticks are instructions executed by emu.step()
+  rs          sc62015_core::keyboard::KeyboardMatrix (+ TimerContext)
+  rs-cpu      sc62015_core::CoreRuntime: strobe writes / KIL reads are instructions executed by CoreRuntime::step
+
+On the two CPU flavours the instruction that performs a port access is generated (c14_cpu): operand width 1/2/3,
+every start offset that makes the operand cover the port, immediate / register / IMEM-to-IMEM forms, all
+internal-memory addressing forms; the history is told what the instruction means byte by byte.
 
 Oracle: history invariants only (c14_hist.judge) -- no cross-model verdict; thresholds, polarity, capacity and
 initial strobe registers are read back from the object under test.
@@ -19,18 +29,21 @@ from typing import Any, Dict, List, Optional, Tuple
 from ..core import Ctx, HarnessError, Report, Violation, jhash, mix32
 from ..gen_state import Stream
 from .. import rsclient
+from . import c14_cpu as CPU
 from . import c14_hist as H
 
 PROPERTY = "C14"
 RULE = ("seeded histories (<= 120..300 ops) over press/release/strobe writes/scan ticks/KIL reads/inject/consume "
         "(+ Rust timer tick, write_fifo_to_memory, acknowledge, irq enable) on 2..6 keys biased to share rows and "
         "columns, both polarities, thresholds 1..6, repeat delay/interval in {0,1,2,6,24}, with chatter, "
-        "mid-debounce strobe change, long-hold and burst sub-sequences; every history is executed on the Python "
-        "matrix, the Python handler and the Rust matrix. Non-trivial = the model produced >= 1 debounced press "
-        "event and the history has two held keys sharing a row, a strobe change while a key is held, or a queue "
-        "overflow; distinct = hash of (model, configuration, operation list).")
+        "mid-debounce strobe change, long-hold, burst and parked-strobe sub-sequences; every history is executed on "
+        "the Python matrix, the Python handler, the Rust matrix, the Rust CoreRuntime (port accesses as executed "
+        "instructions of generated width/start offset/addressing form) and, every second history, the Python "
+        "machine (same, plus one scan per executed instruction). Non-trivial = the model produced >= 1 debounced "
+        "press event and the history has two held keys sharing a row, a strobe change while a key is held, or a "
+        "queue overflow; distinct = hash of (model, configuration, operation list).")
 
-MODELS = ("py-matrix", "py-handler", "rs")
+MODELS = ("py-matrix", "py-handler", "py-cpu", "rs", "rs-cpu")
 RS_ONLY_VERBS = ("wfifo", "ack", "iclr", "irq")
 THRESH = (1, 1, 2, 2, 3, 4, 5, 6, 6)
 REPEAT = (0, 1, 2, 6, 24)
@@ -155,7 +168,7 @@ def gen_history(st: Stream, max_ops: int) -> Dict[str, Any]:
         ops.extend(_strobe_ops(cols, ah, st))
 
     while len(ops) < max_ops:
-        r = st.below(200)
+        r = st.below(212)
         if r < 24:
             strobe_some()
         elif r < 54:
@@ -243,19 +256,56 @@ def gen_history(st: Stream, max_ops: int) -> Dict[str, Any]:
             ops.append(["ack"])
         elif r < 195:
             ops.append(["wfifo"])
-        elif r < 200 and polling:
-            if st.chance(1, 2):
-                ops.append(["iclr"])
-            else:
-                ops.append(["irq", 1 if st.chance(1, 2) else 0])
+        elif r < 200:
+            if polling:
+                if st.chance(1, 2):
+                    ops.append(["iclr"])
+                else:
+                    ops.append(["irq", 1 if st.chance(1, 2) else 0])
+        else:
+            # firmware parks the strobes (no column selected) while a release debounce is still pending: a key is
+            # debounced, everything (or just that key) is released, within the release interval all strobes are
+            # parked, a quiet stretch of ticks / KIL reads follows, then the column is selected again
+            k = st.choice(keys)
+            ops.extend(_strobe_ops(cols if st.chance(2, 3) else [k >> 3], ah, st))
+            if k not in held:
+                ops.append(["press", k])
+                held.add(k)
+            ticks(P + st.below(2))
+            if st.chance(1, 3):
+                ops.append(["kil", 0])
+            for h in sorted(held):
+                if h == k or not st.chance(1, 4):
+                    ops.append(["release", h])
+                    held.discard(h)
+            ticks(st.choice((0, 0, 1, max(0, R - 1))))
+            ops.extend(_strobe_ops([], ah, st))
+            quiet = R + st.choice((0, 1, 2, 5, 30))
+            kil_quiet = st.chance(1, 3)
+            for _ in range(quiet):
+                if kil_quiet and st.chance(1, 2):
+                    ops.append(["kil", 0])
+                else:
+                    ops.append(tick_op())
+            r2 = st.below(4)
+            if r2 == 0:
+                ops.append(["press", k])
+                held.add(k)
+            if r2 < 3:
+                ops.extend(_strobe_ops([k >> 3] if st.chance(1, 2) else cols, ah, st))
+                ops.append(["kil", 0])
+                ticks(st.choice((0, 1, P, R)))
+                ops.append(["kil", 0])
     ops = ops[:max_ops]
-    return {"cfg": cfg, "ops": ops, "rs_only": rs_only, "polling": polling}
+    return {"cfg": cfg, "ops": ops, "rs_only": rs_only, "polling": polling, "cpu_seed": st.u32()}
 
 
-def ops_for_model(ops: List[List[Any]], model: str) -> List[List[Any]]:
-    """Translate the abstract (Rust-dialect) history into the op set a Python model has."""
+def ops_for_model(ops: List[List[Any]], model: str, cpu_seed: int = 0) -> List[List[Any]]:
+    """Translate the abstract (Rust-dialect) history into the op set a model has."""
     if model == "rs":
         return [list(o) for o in ops]
+    if model in ("rs-cpu", "py-cpu"):
+        return cpu_ops(ops, cpu_seed, model)
     out: List[List[Any]] = []
     for o in ops:
         v = o[0]
@@ -267,6 +317,39 @@ def ops_for_model(ops: List[List[Any]], model: str) -> List[List[Any]]:
             out.append(["peek"] if (o[1] and model == "py-matrix") else ["kil"])
         elif v == "consume":
             out.append(["pop"] if (o[1] and model == "py-matrix") else ["consume"])
+        else:
+            out.append(list(o))
+    return out
+
+
+def cpu_ops(ops: List[List[Any]], cpu_seed: int, model: str) -> List[List[Any]]:
+    """CPU flavour: strobe writes and KIL reads become instructions (c14_cpu) with a generated operand width, start
+    offset and addressing form; a store that covers both strobe registers writes the second one too (mostly its
+    last written value, sometimes a new one -- the history is told what the bytes mean either way)."""
+    st = Stream(cpu_seed, 0xC14C)
+    last: Dict[str, Optional[int]] = {"kol": None, "koh": None}
+    out: List[List[Any]] = []
+    for o in ops:
+        v = o[0]
+        if v in RS_ONLY_VERBS:
+            continue
+        if v in ("ttick", "scan"):
+            # Rust runtime (timer off): an instruction performs no scan, the tick is a direct scan_tick;
+            # Python machine: the per-instruction keyboard scan of one executed NOP
+            out.append(["scan"] if model == "rs-cpu" else CPU.nop(st, model))
+        elif v in ("kol", "koh"):
+            oth = "koh" if v == "kol" else "kol"
+            other = last[oth]
+            if other is None or st.chance(1, 4):
+                other = st.choice((0x00, 0xFF, st.below(256)))
+            x = CPU.strobe_store(st, v, int(o[1]) & 0xFF, int(other), model)
+            for reg, val in CPU.implied_strobes(x[7]):
+                last[reg] = val
+            out.append(x)
+        elif v == "kil":
+            out.append(CPU.kil_load(st, model))
+        elif v == "consume":
+            out.append(["consume"])
         else:
             out.append(list(o))
     return out
@@ -304,14 +387,19 @@ def exec_py(case: Dict[str, Any]) -> Tuple[Dict[str, Any], List[Dict[str, Any]]]
         m.repeat_delay = int(cfg["repeat_delay"])
         m.repeat_interval = int(cfg["repeat_interval"])
     calls: List[List[Any]] = []
-    orig_scan = m.scan_tick
+    # Observation only: lets us see the ticks performed inside a KIL read.  The wrapper sits on the object the
+    # history talks to: for the handler model that is PCE500KeyboardHandler.scan_tick (the tick entry point the
+    # emulator calls once per instruction and the KIL read calls internally) -- every call of it IS a scan tick of
+    # the history, whatever the handler decides to do with the matrix underneath.
+    tick_owner = h if h is not None else m
+    orig_scan = tick_owner.scan_tick
 
     def recording_scan_tick() -> Any:
         ev = orig_scan()
-        calls.append(list(ev))
+        calls.append(list(ev or []))
         return ev
 
-    m.scan_tick = recording_scan_tick  # observation only: lets us see ticks the handler performs internally
+    tick_owner.scan_tick = recording_scan_tick
 
     def snapshot() -> List[int]:
         return [int(b) for b in (h.fifo_snapshot() if h is not None else m.fifo_snapshot())]
@@ -362,6 +450,190 @@ def exec_py(case: Dict[str, Any]) -> Tuple[Dict[str, Any], List[Dict[str, Any]]]
     return info, obs
 
 
+_PYM: Dict[str, Any] = {}
+
+
+def _pymachine() -> Tuple[Any, Any]:
+    if not _PYM:
+        import contextlib
+        import io
+
+        with contextlib.redirect_stdout(io.StringIO()):
+            from pce500 import PCE500Emulator
+            from sc62015.pysc62015.emulator import RegisterName
+        _PYM["E"] = PCE500Emulator
+        _PYM["R"] = RegisterName
+    return _PYM["E"], _PYM["R"]
+
+
+def exec_pycpu(case: Dict[str, Any]) -> Tuple[Dict[str, Any], List[Dict[str, Any]]]:
+    """Python machine flavour: pce500.PCE500Emulator; strobe writes, KIL reads and scan ticks are instructions
+    executed by emu.step() (one keyboard scan per executed instruction, plus the scan inside a KIL read)."""
+    from pce500 import keyboard_matrix as KM
+
+    E, RN = _pymachine()
+    cfg = case["cfg"]
+    names = keymap()
+    emu = E(perfetto_trace=False, save_lcd_on_exit=False, keyboard_columns_active_high=bool(cfg["active_high"]))
+    INT = 0x100000
+    mem = emu.memory
+    h = emu.keyboard
+    m = h._matrix
+    m.press_threshold = int(cfg["press_threshold"])
+    m.release_threshold = int(cfg["release_threshold"])
+    m.repeat_delay = int(cfg["repeat_delay"])
+    m.repeat_interval = int(cfg["repeat_interval"])
+    emu._timer_enabled = False           # no timer interrupts: the only scans are per instruction / per KIL read
+    # keyboard-interrupt enable of the machine (a snapshot field; set the way pce500/tests/test_snapshot_roundtrip.py
+    # does): when on, a pending key request makes the emulator read KIL itself before each instruction
+    emu._kb_irq_enabled = bool(cfg["irq_enabled"])
+    mem.write_byte(INT + 0xFB, 0x00)     # IMR: nothing is delivered, the program is a straight line
+    log: List[List[Any]] = []            # time-ordered: ["t", events, fifo] | ["k", fifo] | ["w"]
+    orig_scan, orig_read, orig_write = h.scan_tick, h.handle_register_read, h.handle_register_write
+
+    def snapshot() -> List[int]:
+        return [int(b) for b in h.fifo_snapshot()]
+
+    def scan_tick() -> Any:
+        ev = orig_scan()
+        log.append(["t", [_ev_dict(e) for e in (ev or [])], snapshot()])
+        return ev
+
+    def reg_read(register: int) -> Any:
+        r = orig_read(register)
+        if (register & 0xFF) == 0xF2:
+            log.append(["k", snapshot()])
+        return r
+
+    def reg_write(register: int, value: int) -> Any:
+        if (register & 0xFF) in (0xF0, 0xF1):
+            log.append(["w"])
+        return orig_write(register, value)
+
+    # observation only (position markers and the events returned by the tick entry point)
+    h.scan_tick, h.handle_register_read, h.handle_register_write = scan_tick, reg_read, reg_write
+
+    ext = mem.external_memory
+
+    def irq_view() -> Dict[str, Any]:
+        # ISR byte straight from the backing store (no bus access, no side effect), the machine's enable and latch
+        return {"isr": int(ext[len(ext) - 256 + 0xFC]), "irq_enabled": bool(emu._kb_irq_enabled),
+                "latched": bool(emu._key_irq_latched)}
+
+    info = {"press_threshold": int(m.press_threshold), "release_threshold": int(m.release_threshold),
+            "repeat_delay": int(m.repeat_delay), "repeat_interval": int(m.repeat_interval),
+            "repeat_enabled": True, "capacity": int(KM.FIFO_SIZE), "active_high": bool(m.columns_active_high),
+            "kol": int(m.kol), "koh": int(m.koh), "fifo": snapshot()}
+    info.update(irq_view())
+    obs: List[Dict[str, Any]] = []
+    try:
+        for idx, o in enumerate(case["ops"]):
+            v = o[0]
+            del log[:]
+            base: Dict[str, Any] = {"verb": v, "args": list(o[1:]), "op": idx, "ticks": []}
+            if v == "press":
+                emu.press_key(names[o[1]])
+            elif v == "release":
+                emu.release_key(names[o[1]])
+            elif v == "inject":
+                m.inject_event(names[o[1]], release=bool(o[2]))
+                base["injected"] = True
+            elif v == "consume":
+                h.consume_pending_events()
+                base["consumed"] = True
+            elif v == "x":
+                meta = o[7]
+                base["verb"] = meta["kind"]
+                base["args"] = [meta.get("start"), meta.get("width")]
+                for off, val in sorted(o[4].items(), key=lambda kv: int(kv[0])):
+                    mem.write_byte(INT + int(off), int(val) & 0xFF)
+                for i, b in enumerate(o[2]):
+                    mem.write_byte(int(o[1]) + i, int(b) & 0xFF)
+                for rn, val in sorted(o[3].items()):
+                    emu.cpu.regs.set(getattr(RN, rn), int(val))
+                emu.cpu.regs.set(RN.PC, int(o[1]))
+                try:
+                    emu.step()
+                except Exception as exc:  # the generated straight-line instruction must execute
+                    raise HarnessError(f"C14: Python machine failed to execute {o[2]} ({meta['form']}): {exc!r}")
+                if int(emu.cpu.regs.get(RN.PC)) != int(o[1]) + len(o[2]):
+                    raise HarnessError(f"C14: generated instruction {o[2]} ({meta['form']}) did not execute as one "
+                                       f"instruction of {len(o[2])} bytes on the Python machine")
+                ret = {"regs": {rn: int(emu.cpu.regs.get(getattr(RN, rn))) for rn in o[5]},
+                       "imem": [int(mem.read_byte(INT + int(off))) & 0xFF for off in o[6]]}
+                if not any(e[0] == "t" for e in log):
+                    # "Scan the key matrix once per instruction" (PCE500Emulator._scan_keyboard_per_instruction):
+                    # an executed instruction is a scan tick of the history even if the machine skipped the call
+                    log.append(["t", [], snapshot()])
+                recs = _segment(base, meta, ret, list(log), snapshot())
+                recs[-1].update(irq_view())      # ISR is sampled at instruction boundaries only
+                obs.extend(recs)
+                continue
+            else:
+                raise HarnessError(f"C14: op {v!r} is not defined for model py-cpu")
+            base["ticks"] = [{"certain": True, "events": e[1]} for e in log if e[0] == "t"]
+            base["fifo"] = snapshot()
+            base.update(irq_view())
+            obs.append(base)
+    finally:
+        try:
+            emu.save_lcd_on_exit = False
+            emu.close()
+        except Exception:
+            pass
+    return info, obs
+
+
+def _segment(base: Dict[str, Any], meta: Dict[str, Any], ret: Dict[str, Any], log: List[List[Any]],
+             final_fifo: List[int]) -> List[Dict[str, Any]]:
+    """Cut one executed instruction into history records in the order things happened inside the step: a scan tick
+    after the key-input value was sampled, or before the strobe registers were written, gets a record of its own.
+    What the strobe write / the read *mean* comes from the instruction (c14_cpu), not from the observed calls."""
+    recs: List[Dict[str, Any]] = []
+
+    def new() -> Dict[str, Any]:
+        r = dict(base)
+        r["ticks"] = []
+        recs.append(r)
+        return r
+
+    cur = new()
+    strobes = CPU.implied_strobes(meta) if meta["kind"] == "st" else []
+    kil = CPU.kil_of_load(meta, CPU.loaded_value(meta, ret)) if meta["kind"] == "ld" else None
+    placed_strobes = not strobes
+    placed_kil = kil is None
+    if strobes and not any(e[0] == "w" for e in log):
+        cur["strobes"], cur["wide"], placed_strobes = strobes, int(meta["width"]) > 1, True
+    for e in log:
+        if e[0] == "t":
+            if "kil" in cur:
+                cur = new()
+            cur["ticks"].append({"certain": True, "events": e[1]})
+            cur["fifo"] = e[2]
+        elif e[0] == "k" and not placed_kil:
+            cur["kil"], cur["wide"], placed_kil = kil, int(meta["width"]) > 1, True
+            cur["fifo"] = e[1]
+        elif e[0] == "w" and not placed_strobes:
+            if cur["ticks"]:
+                cur = new()
+            cur["strobes"], cur["wide"], placed_strobes = strobes, int(meta["width"]) > 1, True
+    if not placed_kil:
+        # the key-input value reached the CPU without the handler's read being called: judged at the end of the step
+        if "kil" in cur:
+            cur = new()
+        cur["kil"], cur["wide"] = kil, int(meta["width"]) > 1
+    recs[-1]["fifo"] = final_fifo
+    # Any key-input read through the machine's bus -- the instruction's own, or the read the emulator itself performs
+    # while an interrupt request is pending -- empties the queue on the Python machine (as the Rust KIL read does):
+    # the whole step is an explicit consumption as far as the queue clause is concerned.
+    consumed = any(e[0] == "k" for e in log)
+    for r in recs:
+        r.setdefault("fifo", final_fifo)
+        if consumed:
+            r["consumed"] = True
+    return recs
+
+
 def normalise_rs(case: Dict[str, Any], res: Dict[str, Any]) -> Tuple[Dict[str, Any], List[Dict[str, Any]]]:
     if "panic" in res or "init" not in res:
         raise HarnessError(f"C14: rust harness failed on a history: {str(res)[:300]}")
@@ -373,11 +645,31 @@ def normalise_rs(case: Dict[str, Any], res: Dict[str, Any]) -> Tuple[Dict[str, A
         if "error" in r:
             raise HarnessError(f"C14: rust harness rejected op {o}: {r['error']}")
         v = o[0]
-        rec: Dict[str, Any] = {"verb": v, "args": list(o[1:]), "fifo": list(r["fifo"]), "isr": int(r["isr"]),
+        rec: Dict[str, Any] = {"verb": v, "args": list(o[1:]), "fifo": list(r["fifo"]),
+                               "isr": None if r.get("isr") is None else int(r["isr"]),
                                "irq_enabled": bool(r["irq_enabled"]), "latched": bool(r.get("latched", False)),
                                "ticks": []}
         ret = r.get("ret") or {}
         after = rec["fifo"]
+        if v == "x":
+            # an executed instruction: the history is told what it means architecturally (c14_cpu), nothing else
+            meta = o[7]
+            rec["args"] = [meta["start"], meta["width"]]
+            if ret.get("pc") != (int(o[1]) + len(o[2])) & 0xFFFFF:
+                raise HarnessError(f"C14: generated instruction {o[2]} ({meta['form']}) did not execute as one "
+                                   f"instruction of {len(o[2])} bytes: pc={ret.get('pc')}")
+            if meta["kind"] == "st":
+                v = rec["verb"] = "st"
+                rec["strobes"] = CPU.implied_strobes(meta)
+                rec["wide"] = int(meta["width"]) > 1
+            else:
+                v = rec["verb"] = "ld"
+                kv = CPU.kil_of_load(meta, CPU.loaded_value(meta, ret))
+                if kv is not None:
+                    rec["kil"] = kv
+                    rec["ticks"] = [{"certain": False, "events": None}]
+                    rec["consumed"] = True
+                    rec["wide"] = int(meta["width"]) > 1
         if v == "scan" or (v == "ttick" and ret.get("mti")):
             n = int(ret.get("n", 0))
             if n == 0:
@@ -415,11 +707,12 @@ def verdicts_for(case: Dict[str, Any], info: Dict[str, Any], obs: List[Dict[str,
     V, facts = H.judge(info, obs)
     out: List[Violation] = []
     seen = set()
-    for sub, verb, sym, idx, detail in V.items:
+    for sub, verb, sym, ridx, detail in V.items:
         fp = (sub, verb, sym)
         if fp in seen:
             continue
         seen.add(fp)
+        idx = int(obs[ridx].get("op", ridx))     # an executed instruction may be cut into several records
         small = {"model": case["model"], "cfg": case["cfg"], "ops": case["ops"][: idx + 1]}
         out.append(Violation(sub, f"{case['model']}:{verb}", sym, small,
                              f"op #{idx} {case['ops'][idx]}: {detail}; thresholds P={info['press_threshold']} "
@@ -431,13 +724,14 @@ def verdicts_for(case: Dict[str, Any], info: Dict[str, Any], obs: List[Dict[str,
 def run_cases(cases: List[Dict[str, Any]]) -> List[Tuple[List[Violation], Dict[str, Any]]]:
     """Execute fully expanded cases ({model,cfg,ops}) and judge them."""
     results: List[Optional[Tuple[List[Violation], Dict[str, Any]]]] = [None] * len(cases)
-    rs_idx = [i for i, c in enumerate(cases) if c["model"] == "rs"]
+    rs_idx = [i for i, c in enumerate(cases) if c["model"] in ("rs", "rs-cpu")]
     if rs_idx:
         rust = rsclient.shared()
         B = 64
         for j in range(0, len(rs_idx), B):
             chunk = rs_idx[j:j + B]
-            req = {"cmd": "c14.run", "cases": [{"cfg": cases[i]["cfg"], "ops": cases[i]["ops"]} for i in chunk]}
+            req = {"cmd": "c14.run", "cases": [{"cfg": cases[i]["cfg"], "ops": cases[i]["ops"],
+                                                "cpu": cases[i]["model"] == "rs-cpu"} for i in chunk]}
             try:
                 resp = rust.call(req)
             except HarnessError:
@@ -452,8 +746,8 @@ def run_cases(cases: List[Dict[str, Any]]) -> List[Tuple[List[Violation], Dict[s
                 info, obs = normalise_rs(cases[i], res)
                 results[i] = verdicts_for(cases[i], info, obs)
     for i, c in enumerate(cases):
-        if c["model"] != "rs":
-            info, obs = exec_py(c)
+        if c["model"] not in ("rs", "rs-cpu"):
+            info, obs = exec_pycpu(c) if c["model"] == "py-cpu" else exec_py(c)
             results[i] = verdicts_for(c, info, obs)
     return [r for r in results if r is not None]
 
@@ -466,11 +760,14 @@ def _labels(case: Dict[str, Any], facts: Dict[str, Any], viols: List[Violation])
     for f, name in (("press_events", "press-event"), ("release_events", "release-event"),
                     ("repeat_events", "repeat-event"), ("kil_nonzero", "kil-nonzero"), ("keyi_rises", "keyi-rise"),
                     ("redundant_press", "redundant-press"), ("redundant_release", "redundant-release"),
-                    ("chatter", "chatter"), ("lossy", "lossy-tick")):
+                    ("chatter", "chatter"), ("lossy", "lossy-tick"), ("parked_release", "parked-release-tick"),
+                    ("cpu_strobe_stores", "cpu-strobe-store"), ("cpu_wide_strobe_stores", "cpu-wide-strobe-store")):
         if facts[f]:
             lb.append(f"saw:{name}")
-    if case["model"] == "rs":
+    if case["model"] in ("rs", "rs-cpu"):
         lb.append("rs:irq-" + ("on" if case["cfg"]["irq_enabled"] else "off"))
+    if case["model"] == "py-cpu":
+        lb.append("py-cpu:irq-" + ("on" if case["cfg"]["irq_enabled"] else "off"))
     for v in viols:
         lb.append(f"viol:{v.subcheck}")
     return lb
@@ -485,9 +782,12 @@ def _shard(task: Tuple[int, int, str, int, int]) -> Report:
         long = (j % 16 == 15)
         hist = gen_history(st, max_ops * (3 if long else 1) if tier != "quick" else max_ops + (80 if long else 0))
         for model in MODELS:
-            if hist["rs_only"] and model != "rs":
+            if hist["rs_only"] and model not in ("rs", "rs-cpu"):
                 continue
-            cases.append({"model": model, "cfg": hist["cfg"], "ops": ops_for_model(hist["ops"], model)})
+            if model == "py-cpu" and j % 2 == 0:
+                continue                      # the Python machine is the slowest model: every second history
+            cases.append({"model": model, "cfg": hist["cfg"],
+                          "ops": ops_for_model(hist["ops"], model, hist["cpu_seed"])})
     results = run_cases(cases)
     for case, (viols, facts) in zip(cases, results):
         for v in viols:
@@ -520,6 +820,20 @@ ASSUMPTIONS = [
     "KEYI clause is checked on the Rust composition KeyboardMatrix + TimerContext with the closure CoreRuntime uses; "
     "the Python KEYI path lives in pce500/emulator.py (C12) and is not covered here",
     "injected events are taken as given (they reset the key's grammar position), only their queueing is checked",
+    "CPU flavours (rs-cpu, py-cpu): a port access is an executed instruction; the history is told only what the "
+    "instruction means architecturally -- a little-endian store of w bytes at IMEM offset s writes byte i to s+i, the "
+    "bytes landing on 0xF0/0xF1 are strobe writes; a load covering 0xF2 carries KIL in byte 0xF2-s. 24-bit immediates "
+    "and X/Y/U hold 20 bits on both cores, so a third byte with its top nibble set is only moved by MVP (m),(n)",
+    "rs-cpu keeps CoreRuntime's default (disabled) timer: instructions perform no scan, ticks are direct scan_tick "
+    "calls on rt.keyboard plus the possible tick inside a KIL read; KEYI is not judged there (C12)",
+    "py-cpu: every executed instruction is at least one scan tick ('Scan the key matrix once per instruction', "
+    "PCE500Emulator._scan_keyboard_per_instruction); ticks and their events are observed at "
+    "PCE500KeyboardHandler.scan_tick, the order of ticks / KIL sampling / strobe writes inside one step is taken from "
+    "position markers on the handler's register read/write entry points; a step in which KIL was read through the "
+    "bus (by the instruction, or by the emulator itself while an interrupt request is pending) counts as an explicit "
+    "consumption of the queue; timers are off and IMR=0 (straight-line program); ISR bit 2 is sampled at instruction "
+    "boundaries and judged against the machine's _kb_irq_enabled (a generated configuration)",
+    "py-handler: every call of PCE500KeyboardHandler.scan_tick (explicit, or inside a KIL read) is a scan tick",
     "non-default Rust modes (raw_kil, keyi_on_any_press, disable_fifo_mirroring, scan disabled) and Python "
     "scan_enabled=False / KSD masking / release_all_keys are not explored",
 ]
@@ -538,7 +852,7 @@ def run(ctx: Ctx) -> Report:
 
 
 def replay(ctx: Ctx, case: Dict[str, Any]) -> List[Violation]:
-    if case.get("model") == "rs":
+    if case.get("model") in ("rs", "rs-cpu"):
         rsclient.build()
     (viols, _facts), = run_cases([{"model": case["model"], "cfg": case["cfg"], "ops": case["ops"]}])
     return viols
